@@ -445,6 +445,26 @@ Record observation := mk_obs {
                                  (crossover) where the harness could observe it *)
 }.
 
+(* compact encoding of the after-snapshot used by the generated case files: the cells that
+   differ from the before-snapshot (index, new content) and the cells of the new objects *)
+Fixpoint patch {A} (l : list A) (chs : list (nat * A)) : list A :=
+  match chs with
+  | [] => l
+  | (i, a) :: chs' => patch (firstn i l ++ a :: skipn (S i) l) chs'
+  end.
+
+Record delta := mk_delta {
+  d_nodes : list (nat * node); d_graphs : list (nat * list ref); d_inds : list (nat * indiv);
+  d_new_nodes : list node; d_new_graphs : list (list ref); d_new_inds : list indiv }.
+
+Definition apply_delta (s : store) (d : delta) : store :=
+  mk_store (mk_mem (patch (mn (smem s)) (d_nodes d) ++ d_new_nodes d)
+                   (patch (mg (smem s)) (d_graphs d) ++ d_new_graphs d))
+           (patch (ih s) (d_inds d) ++ d_new_inds d) (ctr s).
+
+Definition obs_of (b : store) (d : delta) (pop : list iref) (r : result) (vs : list bool)
+    (ts : list (option nat)) : observation := mk_obs b (apply_delta b d) pop r vs ts.
+
 (* model = implementation: the wrapper model, run on the same population with the inferred
    choices, the recorded function results and the recorded verifier verdicts, returns the same
    answer up to the identity of new objects *)
